@@ -1,3 +1,254 @@
 package sim
 
-func installHQ(r *e2e) {}
+import (
+	"bufio"
+	"context"
+	"encoding/json"
+	"fmt"
+	"io"
+	"net"
+	"net/http"
+	"strconv"
+	"strings"
+	"sync"
+
+	"github.com/gobwas/ws"
+	"github.com/gobwas/ws/wsutil"
+	"github.com/internetarchive/gocrawlhq"
+)
+
+const hqHost = "10.99.0.1"
+
+type hqRow struct {
+	ID, Value, Via, Path, Status string
+}
+
+// HQCall is one REST call as the simulated crawl HQ saw it.
+type HQCall struct {
+	Seq     int             `json:"seq"`
+	Step    int             `json:"step"`
+	Kind    string          `json:"kind"` // get add delete seencheck reset
+	N       int             `json:"n"`
+	Fault   string          `json:"fault,omitempty"`
+	Applied bool            `json:"applied"`
+	URLs    []gocrawlhq.URL `json:"urls,omitempty"`     // payload received
+	Out     []gocrawlhq.URL `json:"returned,omitempty"` // what was returned
+	Arg     string          `json:"arg,omitempty"`
+}
+
+// HQModel is the stateful crawl-HQ service of the simulation.
+type HQModel struct {
+	r      *e2e
+	mu     sync.Mutex
+	rows   []*hqRow
+	seen   map[string]bool
+	nextID int
+	counts map[string]int
+	Calls  []*HQCall
+}
+
+func installHQ(r *e2e) {
+	m := &HQModel{r: r, seen: map[string]bool{}, counts: map[string]int{}}
+	for _, q := range r.sc.Queue {
+		m.rows = append(m.rows, &hqRow{ID: q.ID, Value: q.Value, Via: q.Via, Path: strings.Repeat("L", q.Hops), Status: "FRESH"})
+	}
+	if r.sc.HQ != nil {
+		for _, s := range r.sc.HQ.Seen {
+			m.seen[s] = true
+		}
+	}
+	r.hq = m
+	r.net.Services[hqHost] = func(n *SimNet, c net.Conn, host string) { m.serve(c) }
+	http.DefaultTransport = &http.Transport{
+		DialContext: func(ctx context.Context, network, addr string) (net.Conn, error) {
+			return r.net.Dial(ctx, network, addr, "hq")
+		},
+		DisableKeepAlives: true,
+	}
+	gocrawlhq.SimNetDial = func(ctx context.Context, network, addr string) (net.Conn, error) {
+		return r.net.Dial(ctx, network, addr, "hq-ws")
+	}
+}
+
+func (m *HQModel) fresh() int {
+	n := 0
+	for _, r := range m.rows {
+		if r.Status == "FRESH" {
+			n++
+		}
+	}
+	return n
+}
+
+func (m *HQModel) faultFor(kind string, n int) string {
+	if m.r.sc.HQ == nil || m.r.sc.HQ.Faults == nil {
+		return ""
+	}
+	fs := m.r.sc.HQ.Faults[kind]
+	if n < len(fs) {
+		return fs[n]
+	}
+	return ""
+}
+
+func writeHTTP(c net.Conn, status int, body []byte) {
+	fmt.Fprintf(c, "HTTP/1.1 %d %s\r\nContent-Type: application/json\r\nContent-Length: %d\r\nConnection: close\r\n\r\n", status, statusText(status), len(body))
+	c.Write(body)
+}
+
+func (m *HQModel) serve(c net.Conn) {
+	defer c.Close()
+	k := m.r.k
+	br := bufio.NewReader(c)
+	if line, err := br.Peek(40); err == nil && strings.Contains(string(line), "/api/ws") {
+		// websocket: accept and discard
+		rw := struct {
+			io.Reader
+			io.Writer
+		}{br, c}
+		if _, err := ws.Upgrade(rw); err != nil {
+			return
+		}
+		for {
+			if _, _, err := wsutil.ReadClientData(rw); err != nil {
+				return
+			}
+		}
+	}
+	req, err := http.ReadRequest(br)
+	if err != nil {
+		return
+	}
+	body, _ := io.ReadAll(req.Body)
+	kind := ""
+	arg := ""
+	switch {
+	case strings.HasSuffix(req.URL.Path, "/urls") && req.Method == "GET":
+		kind = "get"
+	case strings.HasSuffix(req.URL.Path, "/urls") && req.Method == "POST":
+		kind = "add"
+	case strings.HasSuffix(req.URL.Path, "/urls") && req.Method == "DELETE":
+		kind = "delete"
+	case strings.HasSuffix(req.URL.Path, "/seencheck"):
+		kind = "seencheck"
+	case strings.Contains(req.URL.Path, "/reset/"):
+		kind = "reset"
+		arg = req.URL.Path[strings.LastIndex(req.URL.Path, "/")+1:]
+	default:
+		writeHTTP(c, 404, []byte(`{}`))
+		return
+	}
+	m.mu.Lock()
+	n := m.counts[kind]
+	m.counts[kind]++
+	call := &HQCall{Seq: len(m.Calls), Kind: kind, N: n, Fault: m.faultFor(kind, n), Arg: arg}
+	m.Calls = append(m.Calls, call)
+	fresh := m.fresh()
+	m.mu.Unlock()
+	actor := "hq:" + kind + "#" + strconv.Itoa(n)
+	k.Park(actor, "hqsrv.request", kind, n, fresh)
+	call.Step = k.step
+	if call.Fault != "" {
+		k.Fault("hq-" + kind + "-" + call.Fault)
+	}
+	switch call.Fault {
+	case "500":
+		writeHTTP(c, 500, []byte(`{"error":"simulated"}`))
+		k.Note(actor, "hqsrv.done", kind, n, "500")
+		return
+	case "reset-before":
+		k.Note(actor, "hqsrv.done", kind, n, "reset-before")
+		return
+	case "timeout":
+		io.Copy(io.Discard, c)
+		k.Note(actor, "hqsrv.done", kind, n, "timeout")
+		return
+	}
+	m.mu.Lock()
+	status, out := m.apply(call, kind, arg, body, req)
+	call.Applied = true
+	m.mu.Unlock()
+	if call.Fault == "reset-after" {
+		k.Note(actor, "hqsrv.done", kind, n, "reset-after")
+		return
+	}
+	writeHTTP(c, status, out)
+	k.Note(actor, "hqsrv.done", kind, n, status)
+}
+
+// apply performs the call on the model (m.mu held).
+func (m *HQModel) apply(call *HQCall, kind, arg string, body []byte, req *http.Request) (int, []byte) {
+	switch kind {
+	case "get":
+		size, _ := strconv.Atoi(req.URL.Query().Get("size"))
+		var out []gocrawlhq.URL
+		for _, r := range m.rows {
+			if len(out) >= size {
+				break
+			}
+			if r.Status == "FRESH" {
+				r.Status = "CLAIMED"
+				out = append(out, gocrawlhq.URL{ID: r.ID, Value: r.Value, Via: r.Via, Path: r.Path, Status: "CLAIMED", Type: "seed"})
+			}
+		}
+		call.Out = out
+		if len(out) == 0 {
+			return 204, nil
+		}
+		b, _ := json.Marshal(out)
+		return 200, b
+	case "add":
+		var p gocrawlhq.AddPayload
+		json.Unmarshal(body, &p)
+		call.URLs = p.URLs
+		for _, u := range p.URLs {
+			m.nextID++
+			m.rows = append(m.rows, &hqRow{ID: fmt.Sprintf("hq-%04d", m.nextID), Value: u.Value, Via: u.Via, Path: u.Path, Status: "FRESH"})
+		}
+		return 201, []byte(`{}`)
+	case "delete":
+		var p gocrawlhq.DeletePayload
+		json.Unmarshal(body, &p)
+		call.URLs = p.URLs
+		for _, u := range p.URLs {
+			for i, r := range m.rows {
+				if r.ID == u.ID {
+					m.rows = append(m.rows[:i], m.rows[i+1:]...)
+					break
+				}
+			}
+		}
+		return 204, nil
+	case "seencheck":
+		var us []gocrawlhq.URL
+		json.Unmarshal(body, &us)
+		call.URLs = us
+		var out []gocrawlhq.URL
+		for _, u := range us {
+			if !m.seen[u.Value] {
+				m.seen[u.Value] = true
+				out = append(out, u)
+			}
+		}
+		call.Out = out
+		if len(out) == 0 {
+			return 204, nil
+		}
+		b, _ := json.Marshal(out)
+		return 200, b
+	case "reset":
+		for _, r := range m.rows {
+			if r.ID == arg {
+				r.Status = "FRESH"
+			}
+		}
+		return 200, []byte(`{}`)
+	}
+	return 404, nil
+}
+
+func (m *HQModel) snapshot() []*HQCall {
+	m.mu.Lock()
+	defer m.mu.Unlock()
+	return append([]*HQCall(nil), m.Calls...)
+}
